@@ -169,11 +169,28 @@ func c03Worker(raw json.RawMessage) *engine.Result {
 		if s.Preemptions(len(s.Taken)) > 0 {
 			res.NontrivN++
 		}
+		nv := len(res.Viol)
 		c03Check(sc, c, s, res, outcomes)
+		if len(res.Viol) > nv && len(s.Taken) > 0 {
+			// the witness is this one schedule, not the whole search
+			one := c
+			one.Prefix = append([]int{}, s.Taken...)
+			for i := nv; i < len(res.Viol); i++ {
+				res.Viol[i].Case = engine.J(one)
+			}
+		}
 		if sampleTrace == nil && s.Preemptions(len(s.Taken)) >= 2 {
 			sampleTrace = append([]string{}, s.Labels...)
 		}
 		s.W.Close()
+	}
+	if len(c.Prefix) > 0 {
+		// a recorded schedule: exactly this one execution (witness confirmation and replay)
+		s := mk(c.Prefix)
+		s.Execute()
+		check(s)
+		res.Data = engine.J(map[string]interface{}{"scenario": sc.Name, "single_schedule": true, "decisions": len(c.Prefix)})
+		return res
 	}
 	var execs, pruned, states int
 	complete := true
